@@ -44,6 +44,10 @@ enum Op {
     Frame,
     /// shorthand: waitto t ; w addr val 0 ; frame ; frame
     Probe(usize, u16, u8),
+    /// the host runs a program (a counting loop, then `JR $`) with several frames per emulate_frames call,
+    /// a breakpoint stops it inside the first — hidden — frame after `iters` loop passes, the host switches to
+    /// one frame per call and resumes: the frame then delivered was drawn from unchanged memory
+    RunStop(usize, usize),
 }
 
 impl Op {
@@ -74,6 +78,7 @@ impl Op {
                 s
             }
             Op::Frame => "frame".into(),
+            Op::RunStop(n, k) => format!("runstop {:x} {:x}", n, k),
             Op::Probe(t, a, v) => format!("probe {:x} {:04x} {:02x}", t, a, v),
         }
     }
@@ -111,6 +116,7 @@ impl Op {
                 Op::Poke(ps)
             }
             ["frame"] => Op::Frame,
+            ["runstop", a, b] => Op::RunStop(n(a)?, n(b)?),
             ["probe", t, a, v] => Op::Probe(n(t)?, n(a)? as u16, n(v)? as u8),
             _ => return None,
         })
@@ -134,6 +140,7 @@ impl Op {
             Op::Out(..) => "out",
             Op::Poke(_) => "poke",
             Op::Frame => "frame",
+            Op::RunStop(..) => "runstop",
             Op::Probe(..) => "probe",
         }
     }
@@ -900,6 +907,54 @@ impl<'a> Sim<'a> {
                 self.model_op("status");
             }
             Op::Frame => self.frame(out),
+            Op::RunStop(nf, iters) => {
+                // LD BC,iters ; loop: DEC BC ; LD A,B ; OR C ; JR NZ,loop ; bp: JR $
+                let it = (*iters).clamp(1, 0xFFFF) as u16;
+                let prog = [0x01, it as u8, (it >> 8) as u8, 0x0B, 0x78, 0xB1, 0x20, 0xFB, 0x18, 0xFE];
+                for (i, b) in prog.iter().enumerate() {
+                    self.e.verif_write_mem(0x8000 + i as u16, *b, 0);
+                    self.model_op(&format!("w {:04x} {:02x} 0", 0x8000 + i, b));
+                }
+                let stable = !self.dirty;
+                let l = clocks_frame(self.m128);
+                let c0 = self.e.verif_frame_clocks();
+                {
+                    let cpu = self.e.verif_cpu();
+                    cpu.regs.set_pc(0x8000);
+                    cpu.regs.set_sp(0x9000);
+                    cpu.regs.set_iff1(false);
+                    cpu.halted = false;
+                }
+                let mut frames_run = 0usize;
+                if let Some(d) = self.e.debug_interface() {
+                    d.break_all = false;
+                    d.bps.clear();
+                    d.bps.insert(0x8008);
+                }
+                self.sync_frames();
+                self.e.set_speed(rustzx_core::EmulationMode::FrameCount((*nf).clamp(1, 4)));
+                let _ = self.e.emulate_frames(Duration::from_secs(1));
+                frames_run += self.e.verif_frames_count();
+                let stopped_in_first = frames_run == 0;
+                if let Some(d) = self.e.debug_interface() {
+                    d.bps.clear();
+                }
+                self.e.set_speed(rustzx_core::EmulationMode::FrameCount(1));
+                let _ = self.e.emulate_frames(Duration::from_secs(1));
+                frames_run += self.e.verif_frames_count();
+                if let Some(d) = self.e.debug_interface() {
+                    d.break_all = true;
+                }
+                self.frames += frames_run as u64;
+                self.last_fc = self.e.verif_frames_count();
+                self.frames_advanced = true;
+                let elapsed = frames_run * l + self.e.verif_frame_clocks() - c0;
+                self.model_op(&format!("wait {:x}", elapsed));
+                out.count("runstop", if stopped_in_first { "breakpoint inside the first frame of the call" } else { "breakpoint in a later frame" });
+                if stable && frames_run >= 1 {
+                    self.check_frame(true, out);
+                }
+            }
             Op::Probe(t, a, v) => {
                 for o in [Op::WaitTo(*t), Op::W(*a, *v, 0), Op::Frame, Op::Frame] {
                     self.apply(&o, out);
@@ -1051,7 +1106,19 @@ impl Gen {
                     // the trap needs ROM 1 (48K BASIC) paged in
                     ops.push(Op::Out(0x7FFD, 0x10 | if bank == 7 { 7 } else { 0 }));
                 }
-                ops.push(Op::Tape(if m128 && bank == 7 { 0xC000 } else { 0x4000 }, scr.to_vec()));
+                if r.bool() {
+                    ops.push(Op::Tape(if m128 && bank == 7 { 0xC000 } else { 0x4000 }, scr.to_vec()));
+                } else if m128 && bank == 7 {
+                    // a whole-bank load: the block ends exactly at 0xFFFF
+                    let mut b = scr.to_vec();
+                    b.extend(r.bytes(0x4000 - scr.len()));
+                    ops.push(Op::Tape(0xC000, b));
+                } else {
+                    // a block that starts high, wraps through the ROM (writes ignored) and ends in the display file
+                    let mut b = r.bytes(0x1000 + 0x4000);
+                    b.extend_from_slice(scr);
+                    ops.push(Op::Tape(0xF000, b));
+                }
             }
             "scr" => ops.push(Op::Scr(scr.to_vec())),
             "sna" => {
@@ -1193,7 +1260,7 @@ pub fn run(o: &Opts) -> Report {
 {CPU write cycle via 0x4000, via 0xC000 with bank 5/7 paged, real LD (HL),A, tape fast-load, SCR, SNA, SZX} on both \
 machines, into the displayed and the hidden 128K screen, followed by single-byte perturbation frames (16 bytes per \
 frame, alternating CPU/Z80 paths) that together cover every one of the 6912 offsets of every screen bank; \
-(2) 48-frame runs without memory change for the flash phase (both machines, both 128K screens); (3) beam-relative \
+(2) 48-frame runs without memory change for the flash phase (both machines, both 128K screens); (2b) a program run by emulate_frames with 2-3 frames per call, stopped by a breakpoint inside the first frame at various beam positions and resumed with one frame per call; (3) beam-relative \
 probes: one byte written at frame clock fetch(line,col)+d, d in -40..40, pixels read from the frame in progress and \
 the next one; (4) paging-latch histories switching the displayed 128K screen, including the lock bit; (5) pokes \
 (execute_poke) into screen memory; (6) matrix: every writer {CPU write cycle, real LD (HL),A, execute_poke, tape fast-load, \
@@ -1354,6 +1421,32 @@ phases by frame number mod 32, beam (writer, byte kind, before/after/margin, dt/
             ops.push(Op::Frame);
         }
         cases.push((format!("flash m128={} bank={}", m128, bank), Case { m128, ops }, 1));
+    }
+
+    // (2b) host slicing: several frames per call, a breakpoint stop inside the first of them at various beam
+    // positions (26 T per loop pass), then one frame per call — the screen changed two frames earlier only
+    for (m128, bank) in [(false, 0u8), (true, 5), (true, 7)] {
+        for k in 0..o.n(2, 12) {
+            let mut ops = vec![];
+            if m128 {
+                ops.push(Op::Out(0x7FFD, if bank == 7 { 0x08 | 7 } else { 5 }));
+            }
+            for round in 0..3 {
+                let scr = random_screen(&mut g.rng);
+                ops.push(Op::WBlk(if bank == 7 { 0xC000 } else { 0x4000 }, 0, scr));
+                ops.push(Op::Frame);
+                ops.push(Op::Frame);
+                let iters = match (k + round) % 4 {
+                    0 => 100 + g.rng.below(400),        // top border
+                    1 => 560 + g.rng.below(1600),       // inside the picture
+                    2 => 1000 + g.rng.below(800),
+                    _ => 2250 + g.rng.below(400),       // bottom border
+                } as usize;
+                ops.push(Op::RunStop(2 + ((k + round) % 2) as usize, iters));
+                ops.push(Op::Frame);
+            }
+            cases.push((format!("runstop m128={} bank={}", m128, bank), Case { m128, ops }, 1));
+        }
     }
 
     // (3) beam-relative probes
